@@ -558,7 +558,7 @@ type c14Progress struct {
 	cur   atomic.Pointer[c14Rec]
 }
 
-var c14HangAfter = 4 * time.Second
+var c14HangAfter = 15 * time.Second
 
 // c14Watch runs f on its own goroutine and returns false if it stops making
 // progress (no tick for c14HangAfter).
